@@ -13,7 +13,7 @@ CLAIMED = {
     text='Kernel-checked theorems: validate_iff, get_spec, set_spec, set_extent, get_after_set, reset_spec, '
          'blocks_refine_map (any op sequence on a block = the same sequence on a partial map, by induction), context_offset, '
          'server-context routing; the model is compared with the real block/context classes on boundary sweeps and random '
-         'op sequences each run (server contexts built in each way a caller can build them; several live in one process and must not share their registry).',
+         'op sequences each run (validate is also checked against the block\'s own current contents after ANY history; server contexts built in each way a caller can build them; several live in one process and must not share their registry).',
     design='6/C18', technique='Lean 4 refinement proof (block = partial map) + differential correspondence',
     note='Modelled not verified: Python list slicing and dict order. Values restricted to non-negative ints/bools.'),
 }
@@ -41,7 +41,7 @@ CLAIMED['C01'] = dict(
          'source and checked by decide; three known findings proved as counterexamples (FIFO count, read-file-record response layout, '
          'multi-word diagnostic request); enc_readFileRecord_req_conforms / enc_writeFileRecord_req_conforms / enc_writeFileRecord_resp_conforms / '
          'dec_readFileRecord_req_conforms / dec_writeFileRecord_req_conforms / dec_writeFileRecord_resp_conforms (file-record PDUs, every list '
-         'of sub-requests, by induction). Device-identification PDUs are covered by the correspondence harness (and C20).',
+         'of sub-requests, by induction). Device-identification PDUs are covered by the correspondence harness (and C20). Decoders are isolated: vendor classes registered on one decoder must not change what any other decoder of the process makes of a standard PDU.',
     design='6/C01', technique='Lean 4 proof of codec conformance to a spec transcription + differential correspondence',
     note='Spec/PduSpec.lean is a transcription of Modbus Application Protocol v1.1b3 section 6-7 (trusted).')
 CLAIMED['C02'] = dict(
@@ -122,10 +122,13 @@ CLAIMED['C16'] = dict(
          'over the history through one invariant): fires_at_most_once, fires_with_matching_tid (TCP), fifo_order + fifo_reply_oldest '
          '(serial), delivered_reply_is_the_arrived_one, unsolicited_dropped / duplicate_dropped / reply_keeps_others, '
          'lost_fails_all_pending (re-entrant requests issued inside connectionLost included), after_loss_every_execute_fails + '
-         'connection_private / connection_is_single_history / chunks_are_replies / chunking_independent + chunking_same_as_whole (ANY division of a stream of valid reply frames into reads gives exactly the state and events of the replies arriving whole; via C06, possible since dataReceived passes unit=0) / split_reply_delivered / unit_from_chunk_counterexample (mutant Guess.*: the fixed finding async-unit-from-chunk) / generated_data_received_unit / multi_connection_lifts (several protocol objects in one process, replies arriving in chunks through the framer models: an operation on one connection changes nothing of another, so every history theorem holds per connection), shared_buffer_counterexample (mutant with one framer for all objects), generated_per_instance_state + generated_manager_kinds + generated_data_received_unit (regenerated from the source each run: per-object framer and manager, which manager each way of building a protocol object gives, what dataReceived passes as unit), after_loss_history, after_close_every_execute_fails + lost_after_close_fails_all_pending + close_then_lost (a local close() anywhere in the history), no_exception, C16_fifo (whole property, serial variant), C16_dict_partial / distinct_ids_partial / '
-         'no_deferred_lost_partial (TCP variant while no outstanding request sees 65536 further executes) and '
-         'distinct_ids_counterexample / C16_dict_counterexample (the full statement is false at the 16-bit wrap: known finding '
-         'tid-wrap-overwrite). The model is compared event by event with the real ModbusClientProtocol / ModbusSerClientProtocol / '
+         'connection_private / connection_is_single_history / chunks_are_replies / chunking_independent + chunking_same_as_whole (ANY division of a stream of valid reply frames into reads gives exactly the state and events of the replies arriving whole; via C06, possible since dataReceived passes unit=0) / split_reply_delivered / unit_from_chunk_counterexample (mutant Guess.*: the fixed finding async-unit-from-chunk) / generated_data_received_unit / multi_connection_lifts (several protocol objects in one process, replies arriving in chunks through the framer models: an operation on one connection changes nothing of another, so every history theorem holds per connection), shared_buffer_counterexample (mutant with one framer for all objects), generated_per_instance_state + generated_manager_kinds + generated_data_received_unit (regenerated from the source each run: per-object framer and manager, which manager each way of building a protocol object gives, what dataReceived passes as unit), after_loss_history, after_close_every_execute_fails + lost_after_close_fails_all_pending + close_then_lost (a local close() anywhere in the history), no_exception, C16_fifo (whole property, serial variant) and - in full since the repaired id allocation (5cae7f5) - '
+         'C16_dict (whole property, TCP variant, every history, any number of wraps of the 16-bit counter, requests pending for '
+         'any length of time), distinct_ids / distinct_ids_final / table_keys_distinct, no_deferred_lost, next_tid_is_free '
+         '(pigeonhole over the 65536 candidates of the getNextTID loop), all with the single decidable side condition Spec.RoomAll: '
+         'fewer than 65536 requests outstanding (otherwise no free id exists); generated_tid_alloc (ids OBSERVED on the real '
+         'managers each run = the model\'s); distinct_ids_counterexample / C16_dict_counterexample are kept as theorems about the '
+         'mutant Old.* (allocation before 5cae7f5: fixed finding tid-wrap-overwrite). The model is compared event by event with the real ModbusClientProtocol / ModbusSerClientProtocol / '
          'ModbusUdpClientProtocol driven over a fake transport with real Deferreds, and the decidable Spec predicates are '
          'evaluated by the driver on the real trace each run.',
     design='6/C16', technique='Lean 4 invariant proof over operation histories of a re-entrant state machine + differential correspondence',
@@ -188,7 +191,7 @@ CLAIMED['C10'] = dict(
          'broadcast_no_response, broadcast_unit_accepted, other_requests_leave_tables, unit0_ordinary_without_broadcast, single_mode_any_unit. All seven real front-ends '
          'are run each run on hosted sets incl. 0/255 with per-unit dumps after every request; final tables are checked against the '
          'per-unit projection of the history executed by the register-file spec. Histories include units removed from the context at run time '
-         '(del context[u]); the model carries the unit list a handler read before its blocking read (Conn.snap), as the sync TCP and asyncio handlers do.',
+         '(del context[u]) and units ATTACHED at run time to a server that was built — by the front-end\'s real constructor — around a context without units; the model carries the unit list a handler read before its blocking read (Conn.snap), as the sync TCP and asyncio handlers do.',
     design='6/C10', technique='Lean 4 proof over the server front-end model (unit routing) + differential correspondence + projection oracle',
     note=SERVER_NOTE)
 CLAIMED['C12'] = dict(
@@ -196,7 +199,7 @@ CLAIMED['C12'] = dict(
          'connection state and front-end), store_unchanged_without_delivery, rejected_request_changes_nothing, stopped_connection_inert, '
          'offending_data_closes_or_resets, fresh_connection_probe (a connection opened after any history is served normally), serve_chunking_independent / serve_any_two_chunkings (C06 composed with the front-end model: a stream of valid request frames of ANY classes cut into reads ANYWHERE makes a stream front-end write exactly the bytes, and leaves exactly the datastore and control block, of the requests handled one after the other; nothing stays buffered; hypothesis for Twisted: listen-only mode is not switched on in the run, shown necessary by twisted_listen_only_depends_on_chunking). Hostile histories (random bytes, well-framed ADUs around truncated / over-long / inconsistent / '
          'empty PDUs, length fields 0/1/65535, bit flips, mixed with valid writes) are sent to all seven real front-ends each run with an idle '
-         'second connection and a fresh third one probed afterwards.',
+         'second connection and a fresh third one probed afterwards; after every step the extent of every table must be unchanged (no request creates or removes cells).',
     design='6/C12', technique='Lean 4 proof over the server front-end model (totality, store frame rule) + differential correspondence on hostile input',
     note=SERVER_NOTE + 'That no Python exception other than those the model lists can be raised is established by correspondence, not by proof.')
 CLAIMED['C17'] = dict(
